@@ -411,12 +411,11 @@ func gobDecodeItem(data []byte) (Item, error) {
 	typ := ActivityVocabularyType("")
 	mm, err := gobDecodeObjectAsMap(data)
 	if err == nil {
-		var sTyp []byte
-		sTyp, isObject = mm["type"]
-		if isObject {
+		// NOTE(marius): anything that was encoded as a map of properties is an object,
+		// even when it has neither a type nor an id, as is common for tags.
+		isObject = true
+		if sTyp, ok := mm["type"]; ok {
 			typ = ActivityVocabularyType(sTyp)
-		} else {
-			_, isObject = mm["id"]
 		}
 	}
 	if isObject {
